@@ -219,6 +219,18 @@ def check_q3(ctx) -> None:
                     all(isinstance(k, ast.Constant) and k.value in STATS for k in st.value.keys):
                 for k, v in zip(st.value.keys, st.value.values):                         # D[label] = {'minimum': mins[i], ...}
                     pairs.append((k.value, v, st, t.slice, t.value.id))
+    # stats = {'minimum': mins[i], ...}; D[label] = stats
+    STAT_LOCAL = None
+    for st in ast.walk(main.node):
+        tg = st.targets[0] if isinstance(st, ast.Assign) and len(st.targets) == 1 else st.target if isinstance(st, ast.AnnAssign) else None
+        if isinstance(tg, ast.Name) and isinstance(getattr(st, 'value', None), ast.Dict) and st.value.keys and \
+                all(isinstance(k, ast.Constant) and k.value in STATS for k in st.value.keys):
+            puts = [x for x in ast.walk(main.node) if isinstance(x, ast.Assign) and isinstance(x.targets[0], ast.Subscript)
+                    and isinstance(x.targets[0].value, ast.Name) and isinstance(x.value, ast.Name) and x.value.id == tg.id]
+            if len(puts) == 1:
+                STAT_LOCAL = tg.id
+                for k, v in zip(st.value.keys, st.value.values):
+                    pairs.append((k.value, v, puts[0], puts[0].targets[0].slice, puts[0].targets[0].value.id))
     dicts = {p[4] for p in pairs}
     ctx.require(len(dicts) <= 1, f'main: statistics are stored in {sorted(dicts)} (expected one dictionary)')
     DICT = next(iter(dicts)) if dicts else None
@@ -248,7 +260,7 @@ def check_q3(ctx) -> None:
     ctx.check(lab_ok, 'Q3', 'main/statistic-label-index',
               f'{main.module.rel}:{loop.lineno}', f'the label of a statistics block is not outputs[{IDX}] for column {IDX}')
     # text block from the same dictionary
-    inner = [n for n in ast.walk(loop) if isinstance(n, ast.For) and norm(n.iter).startswith(f'{DICT}[') and norm(n.iter).endswith('.items()')]
+    inner = [n for n in ast.walk(loop) if isinstance(n, ast.For) and (norm(n.iter).startswith(f'{DICT}[') or norm(n.iter) == f'{STAT_LOCAL}.items()') and norm(n.iter).endswith('.items()')]
     ctx.check(len(inner) == 1 and any(isinstance(c.func, ast.Attribute) and c.func.attr == 'write' for c in calls_in(inner[0])),
               'Q3', 'main/text-from-same-dict', f'{main.module.rel}:{loop.lineno}',
               f'the text summary is not printed from {DICT} (the dictionary that becomes the JSON)')
